@@ -73,7 +73,7 @@ func TestC02Text(t *testing.T) {
 	}{
 		{"text-mediatype text-mediatype-resource", []string{"a", "/", "+", ";", "="}, 6, 8},
 		{"text-node text-node-pp", []string{"a", "@", "/", "."}, 7, 9},
-		{"text-uri text-uri-response", []string{"a", "/", ":", "?", "%2F", "@"}, 5, 7},
+		{"text-uri text-uri-response", []string{"a", "/", ":", "?", "%2F", "@", "lime:", "{"}, 5, 6},
 	}
 	for _, dp := range deep {
 		var hosts []int
